@@ -1,8 +1,134 @@
-(* C14 property theorems only: each closed by `exact <lemma>` with Print Assumptions beneath. *)
-From Coq Require Import ZArith List Bool.
-Require Import MV.Lib.Base MV.C14.Model MV.C14.Gen MV.C14.Proofs.
+(* C14 property theorems only: each closed by `exact <lemma>` with Print Assumptions beneath.
+   All definitions named *_nverts, *_faces, *_edges, *_cells, *_coords, *_rejects are GENERATED from the current
+   source of mouette/procedural (Gen.v); admissible parameters: grids/triangles nu, nv >= 2; torus M, m >= 3;
+   sphere_uv n >= 1, L >= 3; cylinder N >= 3; ring N >= 3, n_cover >= 1; flat_ring N * n_cover >= 1; chains n >= 1.
+
+   FULL STATEMENT of the property for a surface generator g with parameters p (kept here because two of the
+   theorems below prove only part of it):
+     well_formed (g_nverts p) (g_faces p)                         -- indices in range, every vertex used, simple faces,
+                                                                     no directed edge twice (oriented edge-manifold, no repeated face)
+     /\ vertex_manifold (g_nverts p) (g_faces p)                  -- every vertex umbrella is ONE fan
+     /\ closed / border_is_cycle(s), connected, euler = 2 | 0 | 1 | 0   -- the topology of the named shape
+     /\ counts = the documented functions of p  /\  vertices on the named surface  /\  switches honoured.
+   C14_topology_partial proves the third line for every parametric generator except unit_triangle, and the second line
+   (vertex umbrellas) is proved only for the constant-table solids (C14_tables); for the parametric generators both are
+   established, per tested parameter tuple, by the kernel-evaluated checker whose soundness is C14_runtime_checker_sound.
+   C14_on_surface_partial leaves out cylinder (distance to the axis), the rims of ring / flat_ring and sphere_fibonacci;
+   C14_params_honoured_partial leaves out the apex angle defect of ring (bisection loop, checked numerically only). *)
+From Coq Require Import ZArith List Bool Reals.
+Import ListNotations.
+Require Import MV.Lib.Base MV.C14.Model MV.C14.Gen MV.C14.ProofsLib.
+Require Import MV.C14.ProofsGrid MV.C14.ProofsTri MV.C14.ProofsTorus MV.C14.ProofsSphere MV.C14.ProofsCyl
+               MV.C14.ProofsRing MV.C14.ProofsPoly MV.C14.ProofsTables MV.C14.ProofsCoords MV.C14.ProofsAll.
 Open Scope Z_scope.
 
-Theorem C14_torus_nverts : forall M m t, 0 <= M -> 0 <= m -> torus_nverts M m t = M * m.
-Proof. exact torus_nverts_eq. Qed.
-Print Assumptions C14_torus_nverts.
+Theorem C14_well_formed :
+  (forall nu nv t u, 2 <= nu -> 2 <= nv -> well_formed (unit_grid_nverts nu nv t u) (unit_grid_faces nu nv t u)) /\
+  (forall nu nv u, 2 <= nu -> 2 <= nv -> well_formed (unit_triangle_nverts nu nv u) (unit_triangle_faces nu nv u)) /\
+  (forall M m t, 3 <= M -> 3 <= m -> well_formed (torus_nverts M m t) (torus_faces M m t)) /\
+  (forall n L, 1 <= n -> 3 <= L -> well_formed (sphere_uv_nverts n L) (sphere_uv_faces n L)) /\
+  (forall N c, 3 <= N -> well_formed (cylinder_nverts N c) (cylinder_faces N c)) /\
+  (forall N o k, 3 <= N -> 1 <= k -> well_formed (ring_nverts N o k) (ring_faces N o k)) /\
+  (forall N k, 1 <= N * k -> well_formed (flat_ring_nverts N k) (flat_ring_faces N k)).
+Proof. exact all_well_formed. Qed.
+Print Assumptions C14_well_formed.
+
+Theorem C14_counts :
+  (forall nu nv t u, 2 <= nu -> 2 <= nv ->
+     unit_grid_nverts nu nv t u = nu * nv /\ zlen (unit_grid_faces nu nv t u) = (if t then 2 else 1) * ((nu - 1) * (nv - 1))) /\
+  (forall nu nv u, 1 <= nv <= nu -> unit_triangle_nverts nu nv u = (nv * (nv + 1)) / 2) /\
+  (forall nu nv u, 1 <= nu -> 0 <= nv -> unit_triangle_nverts nu nv u = roff nu nv) /\
+  (forall M m t, 0 <= M -> 0 <= m -> torus_nverts M m t = M * m /\ zlen (torus_faces M m t) = (if t then 2 else 1) * (M * m)) /\
+  (forall n L, 1 <= n -> 0 <= L -> sphere_uv_nverts n L = n * L + 2 /\ zlen (sphere_uv_faces n L) = (n + 1) * L) /\
+  (forall N c, 0 <= N -> cylinder_nverts N c = 2 * N + (if c then 2 else 0) /\ zlen (cylinder_faces N c) = (if c then 4 else 2) * N) /\
+  (forall N o k, 1 <= N * k -> ring_nverts N o k = N * k + (if o then 2 else 1) /\ zlen (ring_faces N o k) = N * k) /\
+  (forall N k, 0 <= N * k -> flat_ring_nverts N k = N * k + 2 /\ zlen (flat_ring_faces N k) = N * k) /\
+  (forall n l, 1 <= n -> chain_of_vertices_nverts n l = n /\ zlen (chain_of_vertices_edges n l) = (if l then n else n - 1)) /\
+  (forall n, 0 <= n -> vector_field_nverts n = 2 * n /\ zlen (vector_field_edges n) = n).
+Proof. exact all_counts. Qed.
+Print Assumptions C14_counts.
+
+Theorem C14_topology_partial :
+  (forall nu nv t u, 2 <= nu -> 2 <= nv ->
+     disk_surface (unit_grid_nverts nu nv t u) (unit_grid_faces nu nv t u) (grid_border_cycle nu nv)) /\
+  (forall M m t, 3 <= M -> 3 <= m -> closed_surface (torus_nverts M m t) (torus_faces M m t) 0) /\
+  (forall n L, 1 <= n -> 3 <= L -> closed_surface (sphere_uv_nverts n L) (sphere_uv_faces n L) 2) /\
+  (forall N, 3 <= N -> closed_surface (cylinder_nverts N true) (cylinder_faces N true) 2) /\
+  (forall N, 3 <= N ->
+     border_is_cycles (cylinder_faces N false) [map (cyl_bottom N) (zrange N); map (cyl_top N) (zrange N)] /\
+     connected (cylinder_nverts N false) (cylinder_faces N false) /\
+     euler (cylinder_nverts N false) (cylinder_faces N false) = 0) /\
+  (forall N k, 3 <= N -> 1 <= k ->
+     disk_surface (ring_nverts N true k) (ring_faces N true k) (map (fun t => t) (zrange (N * k + 2))) /\
+     disk_surface (ring_nverts N false k) (ring_faces N false k) (map (fun t => t + 1) (zrange (N * k)))) /\
+  (forall N k, 1 <= N * k ->
+     disk_surface (flat_ring_nverts N k) (flat_ring_faces N k) (map (fun t => t) (zrange (N * k + 2)))).
+Proof. exact all_topology. Qed.
+Print Assumptions C14_topology_partial.
+
+Theorem C14_tables :
+  (disk_like triangle_nverts triangle_faces [0; 1; 2]) /\
+  (forall t, disk_like (quad_nverts t) (quad_faces t) [0; 1; 2; 3]) /\
+  (forall v, sphere_like (tetrahedron_nverts v) (tetrahedron_faces v)) /\
+  (forall c t, sphere_like (hexahedron_nverts c t false) (hexahedron_faces c t false)) /\
+  (forall c t, sphere_like (axis_aligned_cube_nverts c t) (axis_aligned_cube_faces c t)) /\
+  (forall c, sphere_like (hexahedron_4pts_nverts c false) (hexahedron_4pts_faces c false)) /\
+  (forall u, sphere_like (icosahedron_nverts u) (icosahedron_faces u)) /\
+  sphere_like octahedron_nverts octahedron_faces /\
+  sphere_like dodecahedron_nverts dodecahedron_faces.
+Proof. exact all_tables. Qed.
+Print Assumptions C14_tables.
+
+Theorem C14_table_counts :
+  triangle_nverts = 3 /\ zlen triangle_faces = 1 /\
+  (forall t, quad_nverts t = 4 /\ zlen (quad_faces t) = (if t then 2 else 1)) /\
+  (forall v, tetrahedron_nverts v = 4 /\ zlen (tetrahedron_faces v) = 4) /\
+  (forall c t, hexahedron_nverts c t false = 8 /\ zlen (hexahedron_faces c t false) = (if t then 12 else 6)) /\
+  (forall u, icosahedron_nverts u = 12 /\ zlen (icosahedron_faces u) = 20) /\
+  (octahedron_nverts = 6 /\ zlen octahedron_faces = 8) /\ (dodecahedron_nverts = 20 /\ zlen dodecahedron_faces = 12).
+Proof. exact all_table_counts. Qed.
+Print Assumptions C14_table_counts.
+
+Theorem C14_params_honoured_partial :
+  (* triangulate: all faces are triangles, resp. quads *)
+  (forall nu nv (t u : bool), 2 <= nu -> 2 <= nv -> Forall (fun f : list Z => zlen f = if t then 3 else 4) (unit_grid_faces nu nv t u)) /\
+  (forall M m (t : bool), Forall (fun f : list Z => zlen f = if t then 3 else 4) (torus_faces M m t)) /\
+  (forall t : bool, Forall (fun f : list Z => zlen f = if t then 3 else 4) (quad_faces t)) /\
+  (forall c t : bool, Forall (fun f : list Z => zlen f = if t then 3 else 4) (hexahedron_faces c t false)) /\
+  (* volume: exactly one cell on all the vertices, and only then *)
+  (forall v : bool, tetrahedron_cells v = if v then [[0; 1; 2; 3]] else []) /\
+  (forall c t v : bool, hexahedron_cells c t v = if v then [[0; 1; 2; 3; 4; 5; 6; 7]] else []) /\
+  (* forwarding: each named switch reaches the parameter of the same name *)
+  (forall c t, axis_aligned_cube_faces c t = hexahedron_faces c t false /\ axis_aligned_cube_cells c t = hexahedron_cells c t false) /\
+  (forall c v, hexahedron_4pts_faces c v = hexahedron_faces c false v /\ hexahedron_4pts_cells c v = hexahedron_cells c false v) /\
+  (* ring: fewer than three triangles are rejected, exactly *)
+  (forall N o k, ring_rejects N o k = true <-> N < 3) /\
+  (* loop: the closed chain has the extra edge from the last point to the first *)
+  (forall n, chain_of_vertices_edges n false = map (fun i => [i; i + 1]) (zrange (n - 1))) /\
+  (forall n, chain_of_vertices_edges n true = map (fun i => [i; (i + 1) mod n]) (zrange n)) /\
+  (forall n, vector_field_edges n = map (fun i => [2 * i; 2 * i + 1]) (zrange n)) /\
+  (* dual: one face per vertex of the input (its ring of faces), one vertex per face *)
+  (forall v2f nV nF, 0 <= nV -> 0 <= nF -> dual_mesh_nverts v2f nV nF = nF /\ dual_mesh_faces v2f nV nF = map v2f (zrange nV)).
+Proof. exact all_switches. Qed.
+Print Assumptions C14_params_honoured_partial.
+
+Theorem C14_on_surface_partial :
+  (forall n L center radius, Forall (fun p => dist2 p center = (radius * radius)%R) (sphere_uv_coords Rops n L center radius)) /\
+  (forall M m R0 r t, Forall (on_torus R0 r) (torus_coords Rops M m R0 r t)) /\
+  (forall center radius u, Forall (fun p => dist2 p center = (radius * radius)%R) (icosahedron_coords Rops center radius u)) /\
+  (forall nu nv t u, 2 <= nu -> 2 <= nv -> Forall in_unit_square (unit_grid_coords Rops nu nv t u)) /\
+  (forall nu nv u, 2 <= nu -> 2 <= nv -> Forall in_unit_square (unit_triangle_coords Rops nu nv u)) /\
+  (forall P0 P1 P2, triangle_coords Rops P0 P1 P2 = [P0; P1; P2]) /\
+  (forall P0 P1 P2 t, quad_coords Rops P0 P1 P2 t = [P0; P1; vsub Rops (vadd Rops P2 P1) P0; P2]) /\
+  (forall P1 P2 P3 P4 v, tetrahedron_coords Rops P1 P2 P3 P4 v = [P1; P2; P3; P4]) /\
+  (forall P1 P2 P3 P4 P5 P6 P7 P8 c t v, hexahedron_coords Rops P1 P2 P3 P4 P5 P6 P7 P8 c t v = [P1; P2; P3; P4; P5; P6; P7; P8]) /\
+  (forall P1 P2 P3 P4 c v, let X := hexahedron_4pts_coords Rops P1 P2 P3 P4 c v in
+     List.nth 0 X P1 = P1 /\ List.nth 1 X P1 = P2 /\ List.nth 3 X P1 = P3 /\ List.nth 4 X P1 = P4 /\ length X = 8%nat).
+Proof. exact all_on_surface. Qed.
+Print Assumptions C14_on_surface_partial.
+
+Theorem C14_runtime_checker_sound : forall V F,
+  (is_sphere (topo_of V F) = true -> sphere_like V F) /\ (is_torus (topo_of V F) = true -> torus_like V F) /\
+  (is_disk (topo_of V F) = true -> disk_like' V F) /\ (is_annulus (topo_of V F) = true -> annulus_like V F).
+Proof. exact runtime_checker_sound. Qed.
+Print Assumptions C14_runtime_checker_sound.
